@@ -754,6 +754,14 @@ impl Sim {
                 }
             }
         }
+        // a received REQUEST is never for the client, whatever id it carries ("a request" is a rejected buffer, C17;
+        // only a response completes a transaction, C05)
+        if facts.ref_ok && facts.class == 0 && (r.is_ok() || !events.is_empty()) {
+            out.push(finding(
+                &["C05", "C17"],
+                format!("a received request was accepted (result {}, events {:?})", if r.is_ok() { "Ok" } else { "Err" }, ev_names(&events)),
+            ));
+        }
         // responses for finished / unknown transactions must be rejected (C05)
         if r.is_ok() && is_response && !awaiting_before && events.is_empty() {
             out.push(finding(&["C05"], "response for a transaction that is not awaiting one was accepted".into()));
